@@ -281,15 +281,19 @@ def check_lentype(res, facts):
             continue
         if "::test" in f.id:
             continue
-        for bb, t in f.calls():
-            ta = t["f"].get("targs") or []
-            if t["f"].get("name") in ("try_into", "try_from") and len(ta) >= 2 and "u64" in ta[:2]:
-                dst = ta[1] if ta[0] == "u64" else ta[0]
-                key = "%s|%s|%s" % (f.crate, f.id[-110:], t["f"]["name"])
-                if dst in wide:
-                    rule.ok(key, "u64 -> %s" % dst, f.loc)
-                else:
-                    rule.bad(key, "the length prefix is converted to %s (%s): a container with 2^%d or more elements is written by the serializer but rejected by this reader, so it does not round-trip" % (dst, "integer-literal fallback of an un-annotated try_into()" if dst == "i32" else "narrower than usize", bits.get(dst, 64) - (1 if dst.startswith("i") else 0)), "%s (line %s)" % (f.loc, t.get("ln")))
+        # the conversion may sit in the reader itself or in a helper of the same crate it calls (e.g. a shared
+        # `read the length prefix` function); each reader is one instance
+        hosts = [(f, "")] + [(c, " (in helper %s)" % c.name) for _, _, c in DF.local_callees(facts, f) if c.name not in ("deserialize_with_mode", "deserialize_with_flags")]
+        for h, where in hosts:
+            for bb, t in h.calls():
+                ta = t["f"].get("targs") or []
+                if t["f"].get("name") in ("try_into", "try_from") and len(ta) >= 2 and "u64" in ta[:2]:
+                    dst = ta[1] if ta[0] == "u64" else ta[0]
+                    key = "%s|%s|%s" % (f.crate, f.id[-110:], t["f"]["name"])
+                    if dst in wide:
+                        rule.ok(key, "u64 -> %s%s" % (dst, where), h.loc)
+                    else:
+                        rule.bad(key, "the length prefix is converted to %s (%s)%s: a container with 2^%d or more elements is written by the serializer but rejected by this reader, so it does not round-trip" % (dst, "integer-literal fallback of an un-annotated try_into()" if dst == "i32" else "narrower than usize", where, bits.get(dst, 64) - (1 if dst.startswith("i") else 0)), "%s (line %s)" % (h.loc, t.get("ln")))
 
 
 def run(ctx, res):
